@@ -306,6 +306,84 @@ def find_loops(text):
     return res
 
 
+def nest_let_else_continue(text, log, qual):
+    """Rule R26: inside a loop body, `let P = E else { continue; }; REST` (REST = everything up to the end of the loop
+    body) -> `if let P = E { REST }`.  Only applied when the statement is a direct child of the loop's body block, where
+    `continue` and "skip the rest of this block" are the same thing.  (Verus: for-loops do not support `continue`.)"""
+    count = 0
+    while True:
+        toks = rustlex.lex(text)
+        sig = [i for i, t in enumerate(toks) if t.kind not in rustlex.SIG]
+        hit = None
+        for pos, i in enumerate(sig):
+            t = toks[i]
+            if not (t.kind == 'ident' and t.text == 'else'):
+                continue
+            nxt = [toks[j] for j in sig[pos + 1:pos + 6]]
+            txt = [x.text for x in nxt]
+            if txt[:3] == ['{', 'continue', ';'] and txt[3:5] == ['}', ';']:
+                end_stmt = sig[pos + 5]
+            elif txt[:2] == ['{', 'continue'] and txt[2:4] == ['}', ';']:
+                end_stmt = sig[pos + 4]
+            else:
+                continue
+            # the `let` that starts this statement: walk back at depth 0
+            k = i - 1
+            let_i = None
+            while k >= 0:
+                tt = toks[k]
+                if tt.kind == 'punct' and tt.text in ')]}':
+                    k = tt.match - 1
+                    continue
+                if tt.kind == 'punct' and tt.text in ';{':
+                    break
+                if tt.kind == 'ident' and tt.text == 'let':
+                    let_i = k
+                k -= 1
+            if let_i is None or k < 0 or toks[k].text not in ';{':
+                raise LostAnchor(f'{qual}: rule R26: cannot find the `let` of a let-else-continue')
+            # enclosing block
+            b = let_i - 1
+            while b >= 0:
+                tt = toks[b]
+                if tt.kind == 'punct' and tt.text in ')]}':
+                    b = tt.match - 1
+                    continue
+                if tt.kind == 'punct' and tt.text == '{':
+                    break
+                b -= 1
+            if b < 0:
+                raise LostAnchor(f'{qual}: rule R26: no enclosing block')
+            # the block must be a loop body: header ident before `{` (back to the previous `;`, `{` or `}`) starts with for/while/loop
+            h = b - 1
+            header = []
+            while h >= 0:
+                tt = toks[h]
+                if tt.kind == 'punct' and tt.text in ')]':
+                    h = tt.match - 1
+                    continue
+                if tt.kind == 'punct' and tt.text in ';{}':
+                    break
+                if tt.kind not in rustlex.SIG:
+                    header.insert(0, tt.text)
+                h -= 1
+            # a loop annotation (invariant ...) may sit between header and `{`; the first word decides
+            if not header or header[0] not in ('for', 'while', 'loop'):
+                raise LostAnchor(f'{qual}: rule R26: let-else-continue is not a direct child of a loop body (not handled)')
+            hit = (let_i, i, end_stmt, toks[b].match)
+            break
+        if hit is None:
+            break
+        let_i, else_i, end_stmt, close = hit
+        head = text[toks[let_i].start:toks[else_i].start].rstrip()
+        rest = text[toks[end_stmt].end:toks[close].start]
+        text = text[:toks[let_i].start] + 'if ' + head + ' {' + rest + '}\n' + text[toks[close].start:]
+        count += 1
+    if count:
+        log.append(dict(rule='R26', fn=qual, what=f'{count} let-else-continue statement(s) of a loop body nested as `if let`'))
+    return text
+
+
 def unfold_let_chains(text, log, qual):
     """Rule R5: `if let P = E && C { A } [else { B }]` ->
     `if let P = E { if C { A } [else { B }] } [else { B }]`  (B duplicated verbatim)."""
@@ -418,14 +496,22 @@ def parse_opts(words):
     return opts
 
 
-def slice_arm(src, it, anchor, qual):
-    """Rule R4: the block of the match arm whose pattern text is `anchor` inside function `it`."""
+def slice_arm(src, it, anchor, qual, block=False):
+    """Rule R4: the block of the match arm whose pattern text is `anchor` inside function `it`.
+    With block=True (rule R4b): the first `{ .. }` block that follows the anchor text (e.g. `Ok(async move`)."""
     toks = src.toks
     body_start = toks[it.open].start
     body_end = toks[it.close].end
     pos = src.src.find(anchor, body_start, body_end)
     if pos < 0 or src.src.find(anchor, pos + 1, body_end) >= 0:
         raise LostAnchor(f'{qual}: match arm {anchor!r} not found exactly once')
+    if block:
+        k = next(i for i, t in enumerate(toks) if t.start >= pos + len(anchor.rstrip()))
+        while toks[k].kind in rustlex.SIG:
+            k += 1
+        if toks[k].text != '{':
+            raise LostAnchor(f'{qual}: block anchor {anchor!r} is not followed by a block')
+        return k, toks[k].match
     # first `=>` after the anchor, then the arm's block
     k = next(i for i, t in enumerate(toks) if t.start >= pos + len(anchor.rstrip().removesuffix('=>').rstrip()))
     while k < it.close and not (toks[k].text == '=' and toks[k + 1].text == '>'):
@@ -445,13 +531,14 @@ def render_fn(d, log):
     it, impl = find_fn(src, d.qual)
     toks = src.toks
     if d.opts.get('arm'):
-        o, c = slice_arm(src, it, d.arm_anchor, d.qual)
+        o, c = slice_arm(src, it, d.arm_anchor, d.qual, block=bool(d.opts.get('block')))
         sig = '\n'.join(d.arm_header) + '\n'
         inner = src.src[toks[o].end:toks[c].start]
         body = '{' + inner + ('\n' + d.arm_tail + '\n' if d.arm_tail else '') + '}'
         src_start = rustlex.line_of(src.src, toks[o].start)
         src_end = rustlex.line_of(src.src, toks[c].end)
-        log.append(dict(rule='R4', fn=d.qual, arm=d.arm_anchor, what='match arm extracted as a function over its bindings and free variables'))
+        log.append(dict(rule='R4b' if d.opts.get('block') else 'R4', fn=d.qual, arm=d.arm_anchor,
+                        what=('block (async block / closure body) ' if d.opts.get('block') else 'match arm ') + 'extracted as a function over its bindings and free variables'))
         sha = hashlib.sha256(body.encode()).hexdigest()
         return _finish_fn(d, log, sig, body, src_start, src_end, sha, [], d.opts.get('name') or 'arm')
     sig = src.src[toks[it.head].start:toks[it.open].start]
@@ -475,6 +562,8 @@ def _finish_fn(d, log, sig, body, src_start, src_end, sha, dropped_attrs, emitte
     for (rule, n, frm, to, is_re) in d.rws:
         if is_re:
             new, cnt = re.subn(frm, to, text)
+            # `@OP(<op>)` in a replacement names a captured comparison operator (so that one rule covers `<` and `<=`)
+            new = re.sub(r'@OP\((<=|>=|==|!=|<|>)\)', lambda m: {'<': 'lt', '<=': 'le', '>': 'gt', '>=': 'ge', '==': 'eq', '!=': 'ne'}[m.group(1)], new)
         else:
             cnt = text.count(frm)
             new = text.replace(frm, to)
@@ -498,6 +587,8 @@ def _finish_fn(d, log, sig, body, src_start, src_end, sha, dropped_attrs, emitte
         body = body2
     if d.opts.get('letchains'):
         body = unfold_let_chains(body, log, d.qual)
+    if d.opts.get('letelsecontinue'):
+        body = nest_let_else_continue(body, log, d.qual)
     if d.opts.get('bindtail'):
         # rule A4': the tail expression E of the body becomes `let <name> = E;` ... `<name>` so that exit obligations
         # (`//@atend`) can mention the result and the locals still in scope
@@ -650,6 +741,9 @@ def render_item(relpath, kind, name, opts, pre_lines, log):
         m = re.match(r'(?s)^(.*?\bconst\s+[A-Za-z_][A-Za-z0-9_]*\s*:\s*[^=]+?)\s*=\s*(.*);\s*$', text)
         if not m:
             raise LostAnchor(f'const {name}: unexpected shape for rule R14')
+        if opts.get('selfvalue'):
+            # (auto-extracted consts) the value spec is the initialiser itself, read in spec mode
+            pre_lines = list(pre_lines) + [f'ensures {name.split("::")[-1]} == ({m.group(2)})']
         text = m.group(1).replace('const ', 'exec const ', 1) + '\n' + '\n'.join(pre_lines) + '\n{ ' + m.group(2) + ' }'
         pre_lines = []
         if opts.get('assume_value'):
